@@ -778,16 +778,13 @@ private:
             q = H_(TOST(k + 1), TOST(k - 1));
             r = (notlast ? H_(TOST(k + 2), TOST(k - 1)) : 0.0);
             x = NumTools::abs<Real>(p) + NumTools::abs<Real>(q) + NumTools::abs<Real>(r);
-            if (x != 0.0)
+            if (x == 0.0)
             {
-              p = p / x;
-              q = q / x;
-              r = r / x;
+              continue;
             }
-          }
-          if (x == 0.0)
-          {
-            break;
+            p = p / x;
+            q = q / x;
+            r = r / x;
           }
           s = sqrt(p * p + q * q + r * r);
           if (p < 0)
